@@ -389,6 +389,9 @@ def run(ctx):
             cfg.update({"K": ctx.rng.choice([3, 4]), "completion": comp, "limit": max(2, cfg["limit"])})
             cfgs.append(cfg)
 
+        # a positive covariance floor with variances on both sides of it (flat-lined stretch, stuck sensor, tiny amplitudes)
+        cfgs += tu.threshold_configs(ctx.rng, 4 if ctx.quick() else 24)
+
     check_histories(ctx, hists, cm, gl, cla, arguments, model_state)
 
     # ---------------- phase boundaries of traced real runs
@@ -406,5 +409,7 @@ def run(ctx):
                 ctx.violation("impl-violation", f"phase {e['phase']} handed on a state whose membership does not match its labels",
                               cfg, {"site": "phase-inv", "op": e["phase"]})
         ctx.count("traced_runs")
+        if cfg.get("threshold_kind"):
+            ctx.count("traced_runs_with_floor:" + cfg["threshold_kind"] + ("" if err is None else ":raised"))
         ctx.count("traced_phase_boundaries", len(tr.events))
         ctx.case(("cfg", repr(sorted(cfg.items()))), nontrivial=len(tr.events) >= 4)
